@@ -134,6 +134,12 @@ def compound_forms(body_i, body_n, body2_i=None):
         ('if-in-do', [('do', 'i', I(1), n, None, [('if', [(C('>', E('ia', i), p), body_i)], [ASG(p, B('+', p, I(1)))])], None, None)]),
         ('do-in-if', [('if', [(C('>', p, q), [('do', 'i', I(1), n, None, body_i, None, None)])], body_n)]),
         ('pragma-do', [('pragma', 'some-annotation'), ('do', 'i', I(1), n, None, body_i, None, None)]),
+        ('do-carried-same-stmt', [('do', 'i', I(2), n, None, [ASG(E('ia', i), B('+', E('ia', B('-', i, I(1))), I(1)))] + body_i, None, None)]),
+        ('do-carried-after-write', [('do', 'i', I(2), n, None,
+                                     [ASG(E('ia', i), p), ASG(E('ib', B('-', i, I(1))), E('ia', B('-', i, I(1))))] + body_i, None, None)]),
+        ('do-carried-scalar', [('do', 'i', I(1), n, None, [ASG(E('ia', i), q), ASG(q, B('+', E('ia', i), i))] + body_i, None, None)]),
+        ('if-partial-write-then-read', [('if', [(C('>', n, I(1)), [ASG(E('ia', I(1)), I(0)), ASG(p, E('ia', n))] + body_n)], None)]),
+        ('assoc-alias-write-read', [('assoc', [('a', p)], [ASG(V('a'), B('+', V('a'), I(1))), ASG(q, B('*', p, I(2)))] + body_n)]),
     ]
     return forms
 
